@@ -514,7 +514,9 @@ func (f *sessionFam) armedCauses(w *World, a string, seq int) map[string]bool {
 			pt = 20000
 		}
 		for _, d := range c.PongDelayMs {
-			if d+2*c.LatencyMs >= pt {
+			// the ping may have waited for the client's next poll (think time between polls) and the pong
+			// travels as a request of its own: all of it counts against the timeout
+			if d+4*c.LatencyMs+c.PollGapMs+2 >= pt {
 				armed["ping timeout"] = true
 			}
 		}
